@@ -17,8 +17,8 @@ RULE = ("seeded automata / PDAs / FSTs over a JSON-representable value pool (int
         "oracle: structural equality of the re-imported machine, bounded language equality for the text round "
         "trip, exact reference language per non-terminal for the boxes; non-trivial = machine has >=2 "
         "transitions / grammar >=2 productions / EBNF >=2 lines; distinct = descriptor digest")
-ASSUMPTIONS = ["every state is a start state, a final state or an end point of a transition (an isolated unmarked "
-               "state has no representation the importers could read back, and no effect on the language)",
+ASSUMPTIONS = ["transducer states are start states, final states or end points of transitions (an FST has no public "
+               "way to hold another state); automata and PDAs may declare further states through the constructor",
                "values are JSON-representable, are not epsilon spellings and do not contain ' -> ' or ' / '",
                "grammar tokens are whitespace-free and contain no quote, '|' or '->'"]
 
@@ -51,7 +51,7 @@ def gen(rng, tier):
                 trans.append(t)
         return {"kind": "fa", "states": states, "syms": syms, "trans": trans,
                 "starts": [i for i in range(ns) if rng.chance(0.4)] or [0],
-                "finals": [i for i in range(ns) if rng.chance(0.4)]}
+                "finals": [i for i in range(ns) if rng.chance(0.4)], "declare": rng.chance(0.3)}
     if k == "pda":
         sp = rng.pick(STATE_POOLS)
         ns = rng.randint(1, 3)
@@ -66,7 +66,7 @@ def gen(rng, tier):
             if t not in trans:
                 trans.append(t)
         return {"kind": "pda", "states": states, "syms": syms, "stack": stack, "trans": trans, "start": 0,
-                "z0": 0, "finals": [i for i in range(ns) if rng.chance(0.4)]}
+                "z0": 0, "finals": [i for i in range(ns) if rng.chance(0.4)], "declare": rng.chance(0.3)}
     if k == "fst":
         sp = rng.pick(STATE_POOLS)
         ns = rng.randint(1, 4)
@@ -112,6 +112,8 @@ def shrink(case):
     k = case["kind"]
     if k in ("fa", "pda", "fst"):
         tr = case["trans"]
+        if case.get("declare"):
+            yield dict(case, declare=False)
         for i in range(len(tr)):
             yield dict(case, trans=tr[:i] + tr[i + 1:])
         for f in case["finals"]:
@@ -190,7 +192,8 @@ def _multiset(xs):
 def _run_fa(case, out):
     from pyformlang.finite_automaton import EpsilonNFA, Epsilon
     st, sy = case["states"], case["syms"]
-    fa = EpsilonNFA()
+    # "declare": all states are handed to the constructor, so some may have no transition and no mark
+    fa = EpsilonNFA(states=set(st)) if case.get("declare") else EpsilonNFA()
     for i in case["starts"]:
         fa.add_start_state(st[i])
     for i in case["finals"]:
@@ -214,6 +217,9 @@ def _run_fa(case, out):
         out.fail("fa.roundtrip:structure", differs=which, before=str(a)[:300], after=str(b)[:300])
     if any(isinstance(s, str) and s.startswith("starting_") for s in st):
         out.probe("state_named_like_start_helper")
+    used = set(case["starts"]) | set(case["finals"]) | {p for p, _, _ in case["trans"]} | {q for _, _, q in case["trans"]}
+    if case.get("declare") and len(used) < len(st):
+        out.probe("isolated_unmarked_state")
     if any(a_ is None for _, a_, _ in case["trans"]):
         out.probe("epsilon_transition")
     if len(case["starts"]) > 1:
@@ -225,7 +231,7 @@ def _run_pda(case, out):
     from gens.pda import extract
     st, sy, sk = case["states"], case["syms"], case["stack"]
     pda = PDA(start_state=st[case["start"]], start_stack_symbol=sk[case["z0"]],
-              final_states={st[i] for i in case["finals"]})
+              final_states={st[i] for i in case["finals"]}, **({"states": set(st)} if case.get("declare") else {}))
     for p, a, x, q, g in case["trans"]:
         pda.add_transition(st[p], "epsilon" if a is None else sy[a], sk[x], st[q], [sk[i] for i in g])
 
@@ -254,6 +260,9 @@ def _run_pda(case, out):
             out.fail("pda.roundtrip:start-stack-symbol", before=z1, after=z2)
     if any(isinstance(s, str) and s.startswith("starting_") for s in st):
         out.probe("state_named_like_start_helper")
+    used = {case["start"]} | set(case["finals"]) | {t[0] for t in case["trans"]} | {t[3] for t in case["trans"]}
+    if case.get("declare") and len(used) < len(st):
+        out.probe("isolated_unmarked_state")
     if any(len(t[4]) > 1 for t in case["trans"]):
         out.probe("multi_symbol_push")
 
